@@ -23,6 +23,11 @@ def build(forest, kind):
         return T.build_api(forest, True)
     if kind == 'api-xhtml':
         return T.build_api(with_ns(forest, (None, 'http://www.w3.org/1999/xhtml')), True)
+    if kind in ('api-detached', 'api-detached-xml'):
+        # a tree with no BeautifulSoup object on top: the call target is its root element (extract(), copy.copy(tag) and new_tag() give such trees)
+        if len(forest) != 1 or forest[0][0] != 'e':
+            raise ValueError('a detached tree has exactly one root element')
+        return T.build_detached(forest[0], kind.endswith('xml'))
     if kind == 'api-html5':
         # what html5lib produces: an HTML (not XML) document whose elements carry the XHTML namespace, so that the namespace-aware
         # code paths run with HTML case rules; names are stored exactly as given (html5lib keeps 'viewBox' and friends in mixed case)
